@@ -176,6 +176,17 @@ def rows(cell):
                     bad(f'row {i} at {x:.3f} ft: angle {ang!r} rad, direction of motion in the step trace {seg(k)!r}')
             elif not (lo <= ang <= hi):
                 bad(f'row {i} at {x:.3f} ft: angle {ang!r} rad outside the directions of the neighbouring steps [{lo!r},{hi!r}]')
+    # the numeric view of a row (in_def_units, which also feeds the data frame) shows the same columns, read in the preferred units
+    P = pb.PreferredUnits
+    for i in sorted({0, 1, len(R) // 2, len(R) - 1}):
+        if 0 <= i < len(R):
+            r = R[i]
+            want = (r.time, r.distance >> P.distance, r.velocity >> P.velocity, r.mach, r.height >> P.drop, r.target_drop >> P.drop, r.drop_adj >> P.adjustment,
+                    r.windage >> P.drop, r.windage_adj >> P.adjustment, r.look_distance >> P.distance, r.angle >> P.angular, r.density_factor, r.drag,
+                    r.energy >> P.energy, r.ogw >> P.ogw, r.flag)
+            if tuple(r.in_def_units()) != want:
+                j = next((k for k, (a, b) in enumerate(zip(r.in_def_units(), want)) if a != b), None)
+                bad(f'row {i}: in_def_units() column {j} is {list(r.in_def_units())[j] if j is not None else None!r}, the row says {want[j] if j is not None else None!r}')
     nontrivial = look != 0 or atmo != 'icao' or tw != 0
     return {'v': out, 'n': len(R), 'nt': cell if nontrivial else None, 'obs': [mode, bullet, tw != 0], 'extra': {'rows_checked': len(R)}}
 
